@@ -50,7 +50,7 @@ def run(ctx):
         lines, crash = results[i]
         kind = c.split()[0]
         kinds[kind] = kinds.get(kind, 0) + 1
-        if kind == "sdeath":
+        if kind in ("sdeath", "sdeathq"):
             bad, info = D.monitor_server(c, lines, crash, fixed)
             res.add_case(c, any(x[4] for x in info["calls"]) or bool(info["hang"]))
             dirs_left += info.get("dirs_left", 0)
@@ -104,7 +104,7 @@ def run(ctx):
                 "k-th system call of the client (1..80, 0 = own exit) x schedule policy {server runs only while the client "
                 "is blocked | also after every client call} x {fresh | stale poll result at the death}; every prefix 0..24 of "
                 "the handshake request x {fresh, stale}; server killed at its k-th system call (0..95) x client timeout "
-                "{-1, 300[, 5000]}; quick tier: all k for scenario 4 under two policies and for the server with timeout -1, "
+                "{-1, 300[, 5000]}, and the same with qb_ipcc_disconnect as the client's only call after the death; quick tier: all k for scenario 4 under two policies and for the server with timeout -1, "
                 "every 2nd/3rd k (seeded offset) for the rest; thorough: everything.  A case is non-trivial when the "
                 "server had called back for the dying client (client death) / a client call ran against the dead server")
     res.samples = [{"script": [c]} for c in cases[:2] + cases[-2:]]
